@@ -185,6 +185,10 @@ func constFor(t *rapid.T, c *Col, label string) *sq.E {
 	}
 	switch c.Kind {
 	case "int":
+		// an integer column is also compared with fractional constants (numeric order on numbers)
+		if rapid.IntRange(0, 2).Draw(t, label+".fracconst") == 0 {
+			return sq.Num(rapid.SampledFrom(fracs).Draw(t, label))
+		}
 		return sq.Num(genIntVal(t, label))
 	case "num":
 		return sq.Num(genNumVal(t, label))
@@ -401,3 +405,105 @@ func genPred(t *rapid.T, tb *Table, ps *PredSpec, depth int, label string) *sq.E
 }
 
 func isIntegral(f float64) bool { return f == math.Trunc(f) }
+
+// ------------------------------------------------------------------------------------------------
+// Natively built Go data: numeric columns held in Go types other than float64.
+
+var goIntTypes = []string{"int", "int64", "int32", "int16", "int8", "uint", "uint64", "uint32", "uint16", "uint8"}
+
+// goTyped converts a float64 value to the named Go numeric type (the value must fit).
+func goTyped(v float64, typ string) any {
+	switch typ {
+	case "int":
+		return int(v)
+	case "int64":
+		return int64(v)
+	case "int32":
+		return int32(v)
+	case "int16":
+		return int16(v)
+	case "int8":
+		return int8(v)
+	case "uint":
+		return uint(v)
+	case "uint64":
+		return uint64(v)
+	case "uint32":
+		return uint32(v)
+	case "uint16":
+		return uint16(v)
+	case "uint8":
+		return uint8(v)
+	case "float32":
+		return float32(v)
+	}
+	return v
+}
+
+func fitsGoType(v float64, typ string) bool {
+	if typ == "float32" {
+		return float64(float32(v)) == v
+	}
+	if typ == "float64" || typ == "" {
+		return true
+	}
+	if v != math.Trunc(v) {
+		return false
+	}
+	lim := map[string][2]float64{"int": {-1 << 53, 1 << 53}, "int64": {-1 << 53, 1 << 53}, "int32": {-1 << 31, 1<<31 - 1}, "int16": {-1 << 15, 1<<15 - 1}, "int8": {-128, 127},
+		"uint": {0, 1 << 53}, "uint64": {0, 1 << 53}, "uint32": {0, 1<<32 - 1}, "uint16": {0, 1<<16 - 1}, "uint8": {0, 255}}[typ]
+	return v >= lim[0] && v <= lim[1]
+}
+
+// genGoTypes draws, for some numeric columns, a Go type that can hold every value of the column's pool.
+func genGoTypes(t *rapid.T, cols []Col, label string) map[string]string {
+	out := map[string]string{}
+	for _, c := range cols {
+		if (c.Kind != "int" && c.Kind != "num") || rapid.IntRange(0, 2).Draw(t, label+"."+c.Name+".typed") != 0 {
+			continue
+		}
+		cands := append([]string{"float32"}, goIntTypes...)
+		perm := rapid.Permutation(cands).Draw(t, label+"."+c.Name+".type")
+		for _, typ := range perm {
+			ok := true
+			for _, v := range c.Pool {
+				if f, isNum := v.(float64); !isNum || !fitsGoType(f, typ) {
+					ok = false
+					break
+				}
+			}
+			if ok {
+				out[c.Name] = typ
+				break
+			}
+		}
+	}
+	return out
+}
+
+// applyGoTypes returns a copy of rows in which the named columns hold values of the given Go types.
+func applyGoTypes(rows []any, types map[string]string) []any {
+	if len(types) == 0 {
+		return rows
+	}
+	out := make([]any, len(rows))
+	for i, r := range rows {
+		rm, ok := r.(map[string]any)
+		if !ok {
+			out[i] = r
+			continue
+		}
+		m := make(map[string]any, len(rm))
+		for k, v := range rm {
+			if typ, ok := types[k]; ok {
+				if f, isNum := v.(float64); isNum && fitsGoType(f, typ) {
+					m[k] = goTyped(f, typ)
+					continue
+				}
+			}
+			m[k] = v
+		}
+		out[i] = m
+	}
+	return out
+}
